@@ -11,7 +11,9 @@ import WacModel.Spec.Grammar
   tables by `litText_tables`); the text the `LTok` carries is only used for the four token
   classes (identifier, string, package name, package path), exactly as the parser does.  A
   lexical-error item and the two comment kinds (never produced by the lexer) are mapped to a
-  terminal with empty text, which no production of the grammar mentions.
+  terminal with empty text, which no production of the grammar mentions.  The abstraction is of
+  the items *as `Lexer::next` delivers them*: an opening bracket nested deeper than
+  `MAX_NESTING_DEPTH` is delivered as the lexical error `NestingTooDeep` (`effToks`).
 -/
 namespace Wac.C12
 open Wac Wac.Ast Wac.Lex Wac.Parse Wac.Spec.Grammar
@@ -57,8 +59,25 @@ def absTok (tk : LTok) : STok :=
   | .ok .PackagePath => ⟨.packagePath, tk.text⟩
   | .ok k => ⟨.lit, (litText k).toList⟩
 
-/-- the grammar token sequence the parser state stands for -/
-def abs (st : PState) : List STok := st.toks.map absTok
+/-- the items of the token stream as `Iterator::next` delivers them from nesting depth `d`: an
+opening bracket beyond the nesting limit is delivered as the lexical error `NestingTooDeep`
+(`Lexer::next`, model `PState.next`) -/
+def effToks : Nat → List LTok → List LTok
+  | _, [] => []
+  | d, t :: r =>
+    match t.res with
+    | .ok k =>
+      if isOpenBracket k then
+        (if tooDeep (d + 1) then { t with res := .error .NestingTooDeep } else t) :: effToks (d + 1) r
+      else if isCloseBracket k then t :: effToks (d - 1) r
+      else t :: effToks d r
+    | .error _ => t :: effToks d r
+
+/-- the items the parser will be delivered from this state -/
+def eff (st : PState) : List LTok := effToks st.depth st.toks
+
+/-- the grammar token sequence the parser state stands for (of the items as delivered) -/
+def abs (st : PState) : List STok := (eff st).map absTok
 
 /-- inverse of `litText` on terminals -/
 def ofLit : String → Option Token
